@@ -16,7 +16,7 @@ vars == <<g, start, visited, stack>>
 
 Fo(i) == FoSet(g, i)
 Reachable == Desc(g, {start})
-Init == /\ g \in DAG4 \cup DAG5
+Init == /\ g \in DAG4(0) \cup DAG5(0)
         /\ start \in 1..g.n
         /\ visited = [i \in 1..g.n |-> IF i = start THEN 0 ELSE -1]
         /\ stack = << [n |-> 0, todo |-> FoSet(g, start)] >>
